@@ -148,3 +148,22 @@ impl SeedableRng for XorShiftRng {
         })
     }
 }
+
+// Verification hooks (add-only, compiled only with `--cfg rngs_verif`).
+#[cfg(rngs_verif)]
+impl XorShiftRng {
+    /// Verification hook: build a generator directly from its state words (x, y, z, w).
+    pub fn verif_from_state(s: [u32; 4]) -> Self {
+        XorShiftRng {
+            x: w(s[0]),
+            y: w(s[1]),
+            z: w(s[2]),
+            w: w(s[3]),
+        }
+    }
+
+    /// Verification hook: read the state words (x, y, z, w).
+    pub fn verif_state(&self) -> [u32; 4] {
+        [self.x.0, self.y.0, self.z.0, self.w.0]
+    }
+}
